@@ -25,13 +25,21 @@
 (*        references a prefix of the input's references, recursively; cells    *)
 (*        carried verbatim (^Cell, Any) must be identical.  A pruned branch in *)
 (*        the input stands for a subtree that is not there: nothing is         *)
-(*        required of the value below it.  TL-B gives VarUInteger and          *)
-(*        HashmapE several encodings of one value (any length that fits; any   *)
-(*        label form), so for schemas containing them the relation is checked  *)
-(*        by Reads, which walks schema, value and input together, takes the    *)
-(*        bits of every primitive from TlbSem!EncT and reads only those two    *)
-(*        free choices from the input.  Both relations are evaluated where     *)
-(*        both apply and must agree.                                           *)
+(*        required of the value below it.                                      *)
+(*        TL-B gives some values several encodings, and the library's values   *)
+(*        cannot express everything an input can say:                          *)
+(*          VarUInteger  any length that holds the number encodes it;          *)
+(*          HashmapE     labels have three forms;                              *)
+(*          Maybe ^X     over a pruned branch the library reports "absent".    *)
+(*        For schemas containing one of these the relation is decided by       *)
+(*        Reads, which walks schema, value and input together, takes the bits  *)
+(*        of every primitive from TlbSem!EncT and reads exactly those free     *)
+(*        choices from the input (the length field of a VarUInteger as it      *)
+(*        stands - whether it respects its (#< n) bound is a question of       *)
+(*        conformance, C03 / C04, not of totality; the presence bit of a       *)
+(*        dictionary, below which nothing is compared).  For all other schemas *)
+(*        both relations are evaluated and must agree (the runner treats a     *)
+(*        disagreement as an error of the specification, never as a verdict).  *)
 (*  TL    TlSem's total decoder must return the same value (and leave the same *)
 (*        number of bytes unread).  Since Dec is total this also says that the *)
 (*        code returns an error whenever Dec does.  The converse - the code    *)
